@@ -35,6 +35,26 @@ def laws(mk):
     return out
 
 
+def _used_alternately(th):
+    from predicate import is_int_p, is_str_p
+
+    state = {"n": 0}
+
+    def mk():
+        state["n"] += 1
+        q = th()
+        if state["n"] % 2 == 1:
+            x, y = is_int_p, is_str_p  # noqa: F841  (what lazy_p("x") / lazy_p("y") resolve to from here)
+            for v in (0, "a", None, [1], 1.5, (1, "a")):
+                try:
+                    q(v)
+                except Exception:  # noqa: BLE001
+                    pass
+        return q
+
+    return mk
+
+
 def main(tier):
     chk = Check("C13", tier)
     chk.prove(modules=["PyPred.Props.C13", "PyPred.Props.C13Total"], checker=(tier == "thorough"))
@@ -91,6 +111,12 @@ def main(tier):
             key2 = f"{name}   with p = {d}   [deep copy: equal, distinct objects]"
             items.append((key2, twin))
             expected[key2] = exp
+        # the same law where every other occurrence of p is an object that was USED before (called on a few values, with the names its
+        # references look up bound in the calling frames) and the others are freshly built: p is the same atom -- same kind, same parameters
+        for name, lhs, exp in laws(_used_alternately(th)):
+            key3 = f"{name}   with p = {d}   [every other occurrence was called on values before]"
+            items.append((key3, lhs))
+            expected[key3] = exp
     cur = {}
 
     def judge_factory():
@@ -107,7 +133,7 @@ def main(tier):
 
     optcorr.run_objects(chk, "opt/laws", items, cfg, judge_factory())
     chk.rule = (
-        "28 law instances (both operand orders), each also as a deep copy (equal but distinct objects, constants included), for each of %d atoms = every exported atom kind at 2-4 parameter choices, incl. opaque ones "
+        "28 law instances (both operand orders), each also as a deep copy (equal but distinct objects, constants included) and with every other occurrence of p an object that was called on values before, for each of %d atoms = every exported atom kind at 2-4 parameter choices, incl. opaque ones "
         "(has_key, has_length, regex, lazy, this, root, tee, property, comp, tuple/set/dict 'of', function atoms over built-ins): model optimizeT vs "
         "predicate.optimize on the law's left-hand side, and the result compared (==) with the result the property names. "
         "non-trivial = distinct left-hand sides that optimize changes." % len(atoms)
